@@ -87,11 +87,14 @@ fn check_regex() -> (usize, usize) {
             }
         }
     }
-    // the ".*" node pattern
-    let m = regex_model::RegexBuilder::new(".*").build().ok().unwrap();
-    for h in &hays {
-        assert!(m.is_match(h) == regex::Regex::new(".*").unwrap().is_match(h));
-        compared += 1;
+    // the ".*" node pattern and its anchored form
+    for pat in [".*", "^.*$"] {
+        let m = regex_model::RegexBuilder::new(pat).build().ok().unwrap();
+        let r = regex::Regex::new(pat).unwrap();
+        for h in &hays {
+            assert_eq!(m.is_match(h), r.is_match(h), "pattern {:?} haystack {:?}", pat, h);
+            compared += 1;
+        }
     }
     (accepted, compared)
 }
